@@ -2,5 +2,6 @@ SPECIFICATION TraceSpec
 CONSTANTS
   LegacyImsaak = FALSE
   LegacyImsaakFlag = FALSE
+  LegacyLateInt = FALSE
 POSTCONDITION TraceAccepted
 CHECK_DEADLOCK FALSE
